@@ -142,6 +142,7 @@ package mqtt
 //@   requires p != nil && p.Message != nil && p.Message.QoS <= QoS2
 //@   requires len(p.Message.Topic) <= 0xFFFF && len(p.Message.Topic)+len(p.Message.Payload)+4 <= 0xFFFFFFF
 //@   ensures[C01,C02,C05,C07,C10,C11,C12,C15,C18,C19] seqEq(seqOf(result), specPublish(p.Message))
+//@   rejects[C05] bad_qos: p != nil && p.Message != nil && p.Message.QoS > QoS2
 
 //@ func (*pktPubAck).Pack
 //@   mode int
